@@ -47,10 +47,12 @@ class ScenarioRunnerNoTrade(ScenarioRunner):
         Set a few options to set on top of the specific options for the given simulation
         These could easily change if another scenario was of more interest.
         """
+        # work on a copy: the caller's dictionary must not be modified
+        this_simulation = dict(this_simulation)
         if "fat" not in this_simulation.keys():
             this_simulation["fat"] = "not_required"
         if "protein" not in this_simulation.keys():
-            this_simulation["fat"] = "not_required"
+            this_simulation["protein"] = "not_required"
 
         if "waste" not in this_simulation.keys():
             this_simulation["waste"] = "zero"
